@@ -449,6 +449,9 @@ impl Property for C09 {
             })
             .boxed()
     }
+    fn pool_of(&self, case: &Self::Case) -> Option<usize> {
+        case.base.pool_size()
+    }
     fn check(&self, case: &C09Case) -> Check {
         match (case.builder_scenario, case.base.f32) {
             (false, false) => run_hand::<f64>(case),
